@@ -49,6 +49,9 @@ impl Property for C19 {
     fn assumptions(&self) -> Vec<String> {
         vec!["which types are data-less enums / string newtypes is read from the introspection API".into(), "a non-public field is accepted only on tuple newtypes that offer no From<Inner> (validated constructors)".into()]
     }
+    fn fuzz_gen(&self, g: &mut G) -> Option<Value> {
+        Some(gen_c19_case(g))
+    }
     fn generate(&self, tier: Tier, seed: u64) -> Vec<Value> {
         gen::draw(seed, "C19", tier.pick(350, 12000), gen_c19_case)
     }
